@@ -140,6 +140,14 @@ PROPS = {
         "technique": "contract-based deductive verification: Verus on mechanically extracted real functions",
         "components": [
             {"kind": "vx", "unit": "uplinks", "rlimit": 120},
+            {"kind": "bx", "name": "command_output", "package": "swimos_runtime", "crate_dir": "runtime/swimos_runtime",
+             "attach": "src/agent/task/external_links/mod.rs", "harness_file": "bx/swimos_runtime/command_output.rs",
+             "depth_quick": 5, "depth_thorough": 6,
+             "bound": "all operation sequences up to depth 5 (quick) / 6 (thorough) over 2 targets x 2 bodies x overwrite flag + complete write cycle",
+             "functions": [{"fn": f, "file": "runtime/swimos_runtime/src/agent/task/external_links/mod.rs"} for f in
+                           ["CommandOutput::append", "CommandOutput::get_buffer", "CommandOutput::write", "CommandOutput::replace_writer",
+                            "CmdChannelWriter::swap_buffer", "CmdChannelWriter::append_buffer", "CmdChannelWriter::send_commands"]],
+             "assumptions": ["BOUNDED stand-in (not a proof): CommandOutput::write is outside Verus (impl Future, drain, or-patterns) and Kani (std HashMap)"]},
         ],
         "assumptions": ["bodies respect Rust's allocation bound", "read_task / LaneSender flushing (async) not covered"],
         "trusted_base": COMMON_TRUSTED,
